@@ -42,6 +42,9 @@ func (m *Mutex) Lock() {
 	m.holder = vsched.CurrentID()
 }
 
+// Held reports whether some thread holds the mutex (harness inspection only).
+func (m *Mutex) Held() bool { return m.held }
+
 func (m *Mutex) TryLock() bool {
 	if vsched.Dying() {
 		return false
